@@ -6,6 +6,7 @@ package rules
 //                    about special schemes and default ports consults the parser's own table
 
 import (
+	"fmt"
 	"go/ast"
 	"go/types"
 	"strings"
@@ -83,6 +84,53 @@ func init() {
 							}
 						}
 						s.Check(okRecv, key, c.P.Pos(call.Pos()), "on the module's lookup profile (MapForLookup)", "an IDNA conversion that does not go through the module's lookup profile: a raw profile does not apply the UTS #46 mapping (no lower-casing, no normalisation)")
+						// what the enclosing function hands out as a success is what the conversion produced (or the empty
+						// string): never its own unmapped input - an error tolerated for ASCII domains does not mean the
+						// mapping may be skipped
+						if okRecv && cl.Name() == "ToASCII" && f.Signature.Results().Len() == 2 && errResultIndex(f) == 1 {
+							produced := map[ssa.Value]bool{}
+							nres := 0
+							for _, r := range *call.Referrers() {
+								if ex, ok := r.(*ssa.Extract); ok && ex.Index == 0 {
+									produced[ex] = true
+								}
+							}
+							for _, rb := range f.Blocks {
+								ret, ok := rb.Instrs[len(rb.Instrs)-1].(*ssa.Return)
+								if !ok || !isNilConst(ret.Results[1]) {
+									continue
+								}
+								if !call.Block().Dominates(rb) {
+									continue // decided before the conversion (empty input)
+								}
+								bad := ""
+								var check func(v ssa.Value, depth int)
+								check = func(v ssa.Value, depth int) {
+									switch x := v.(type) {
+									case *ssa.Const:
+										if k, ok := constString(x); !ok || k != "" {
+											bad = "a constant"
+										}
+									case *ssa.Phi:
+										if depth < 4 {
+											for _, e := range x.Edges {
+												check(e, depth+1)
+											}
+										}
+									default:
+										if !produced[v] {
+											bad = "a value the conversion did not produce (" + v.Name() + ")"
+											if p, isP := v.(*ssa.Parameter); isP {
+												bad = "its own input " + p.Name() + ", unmapped"
+											}
+										}
+									}
+								}
+								check(ret.Results[0], 0)
+								nres++
+								s.Check(bad == "", fmt.Sprintf("idna/%s/result#%d", core.FuncName(f), nres), c.P.Pos(ret.Pos()), "every success behind the conversion returns what the conversion produced", "a success behind the IDNA conversion returns "+bad+": lower-casing and the rest of the UTS #46 mapping are skipped")
+							}
+						}
 					}
 				}
 			}
